@@ -1,4 +1,4 @@
-\* exhaustive, smaller: as MC_thorough but arrays of 2 over the 10 kinds on b1 only, arrays of 3 over {Added, Schedule} on b1
+\* exhaustive, smaller: as MC_thorough but arrays of 2 over the 10 kinds on b1 only, arrays of 3 over {Added, Schedule} on b1; Conversion versions group-qualified (none, from, to, both) in arrays of 1 only
 SPECIFICATION Spec
 CONSTANTS
   Names1 = {"b1"}
@@ -11,6 +11,8 @@ CONSTANTS
   SpacedNames = {"Monitor pods in cache tier", "every minute"}
   CommandWords = {"Monitor pods in cache tier"}
   StartupKinds = {"Synchronization", "Added", "Group", "Schedule"}
+  ConvGroups1 = {"", "stable.example.com"}
+  ConvGroups2 = {""}
   MaxDefArr = 2
   WithEmpty = TRUE
   WithConfig = TRUE
